@@ -90,6 +90,7 @@ VNTBase = NewType('VNTBase', VBase)
 VNTIntList = NewType('VNTIntList', list[int])        # supertype not a class
 VNTDerived = NewType('VNTDerived', VNTInt)           # new type derived from a new type
 VNTBool = NewType('VNTBool', bool)                   # supertype not subclassable
+VNTFloat = NewType('VNTFloat', float)                # reached by the numeric tower / overrides only through the new type
 
 
 @runtime_checkable
@@ -185,7 +186,7 @@ LEAF_CLASSES = ['int', 'str', 'bytes', 'float', 'bool', 'complex', 'VBase', 'VDe
 TYPEVARS = {'VT': VT, 'VTB': VTB, 'VTC': VTC}
 NEWTYPES = {'VNTInt': (VNTInt, ['cls', 'int']), 'VNTBase': (VNTBase, ['cls', 'VBase']),
             'VNTIntList': (VNTIntList, ['seq', 'list', ['cls', 'int']]), 'VNTDerived': (VNTDerived, ['nt', 'VNTInt']),
-            'VNTBool': (VNTBool, ['cls', 'bool'])}
+            'VNTBool': (VNTBool, ['cls', 'bool']), 'VNTFloat': (VNTFloat, ['cls', 'float'])}
 PROTOS = {'VSupportsFoo': VSupportsFoo, 'SupportsInt': typing.SupportsInt}
 # PEP 695 type aliases (what "type ANumber = int | float | complex" creates) -> (alias object, the node it stands for)
 ALIASES = {
@@ -196,6 +197,8 @@ ALIASES = {
     'AOptBase': (typing.TypeAliasType('AOptBase', typing.Optional[VBase]), ['union', [['cls', 'VBase']], 'O']),
     'AIntList': (typing.TypeAliasType('AIntList', list[int]), ['seq', 'list', ['cls', 'int']]),
     'AStr': (typing.TypeAliasType('AStr', str), ['cls', 'str']),
+    'AFloatStr': (typing.TypeAliasType('AFloatStr', float | str), ['union', [['cls', 'float'], ['cls', 'str']], 'P']),
+    'ABytes': (typing.TypeAliasType('ABytes', bytes), ['cls', 'bytes']),
 }
 
 # family name -> (hint factory, origin class for isinstance)
